@@ -1356,6 +1356,44 @@ fn grid() {
             }
             println!("Q vec_dedup_key_raw_parts_sweep | {} | same", if bad == 0 { "same".to_string() } else { format!("{}_cases_differ", bad) });
         }
+        // C13 / C15: drain_filter with a predicate that writes through its &mut T (adds to the value, or
+        // replaces it, dropping the old one): the kept elements carry the modification, the removed ones
+        // are yielded with it, and every value — old and new — is dropped exactly once. All removal masks.
+        {
+            use std::cell::RefCell;
+            use std::rc::Rc;
+            struct D(u32, Rc<RefCell<Vec<u32>>>);
+            impl Drop for D { fn drop(&mut self) { self.1.borrow_mut().push(self.0); } }
+            let mut bad = 0usize;
+            for n in 0..7u32 {
+                for mask in 0..(1u32 << n) {
+                    for replace in [false, true] {
+                        let led = Rc::new(RefCell::new(Vec::new()));
+                        let mut v: BVec<D> = BVec::new_in(&bump);
+                        for i in 0..n { v.push(D(i, led.clone())); }
+                        let mut seen = 0u32;
+                        let l2 = led.clone();
+                        let removed: Vec<u32> = v.drain_filter(|x| {
+                            let i = seen; seen += 1;
+                            if replace { *x = D(x.0 + 100, l2.clone()); } else { x.0 += 100; }
+                            mask >> i & 1 == 1
+                        }).map(|d| d.0).collect();
+                        let kept: Vec<u32> = v.iter().map(|d| d.0).collect();
+                        let want_removed: Vec<u32> = (0..n).filter(|i| mask >> i & 1 == 1).map(|i| i + 100).collect();
+                        let want_kept: Vec<u32> = (0..n).filter(|i| mask >> i & 1 == 0).map(|i| i + 100).collect();
+                        drop(v);
+                        let mut all = led.borrow().clone();
+                        all.sort();
+                        let want_all: Vec<u32> = if replace { (0..n).chain((0..n).map(|i| i + 100)).collect() } else { (0..n).map(|i| i + 100).collect() };
+                        if removed != want_removed || kept != want_kept || all != want_all {
+                            bad += 1;
+                            if bad <= 2 { println!("Q drops_once drain_filter_mutating n={} mask={} replace={} | kept={:?} removed={:?} dropped={:?} | kept={:?} removed={:?} dropped={:?}", n, mask, replace as u8, kept, removed, all, want_kept, want_removed, want_all); }
+                        }
+                    }
+                }
+            }
+            println!("Q drops_once drain_filter_mutating_sweep | {} | same", if bad == 0 { "same".to_string() } else { format!("{}_cases_differ", bad) });
+        }
         // C15: replacing a vector wholesale (clone_from with a shorter, equal and longer source, plain
         // assignment, clear + extend): every element the destination held is dropped exactly once, the
         // source's elements are not dropped at all, the result holds clones of the source, in order
